@@ -117,12 +117,13 @@ func (n *nullWriter) Write(b []byte) (int, error) { return len(b), nil }
 func (n *nullWriter) WriteHeader(int)             {}
 
 type world struct {
-	repo      *discovery.StaticEndpointRepository
-	hc        *health.HTTPHealthChecker
-	client    *scripted
-	retry     *core.RetryHandler
-	callbacks int
-	interval  time.Duration
+	repo          *discovery.StaticEndpointRepository
+	hc            *health.HTTPHealthChecker
+	client        *scripted
+	retry         *core.RetryHandler
+	callbacks     int
+	deadCallbacks int
+	interval      time.Duration
 }
 
 func newWorld(interval, timeout time.Duration) (*world, error) {
@@ -135,7 +136,15 @@ func newWorld(interval, timeout time.Duration) (*world, error) {
 		return nil, err
 	}
 	w.hc = health.NewHTTPHealthChecker(w.repo, lg, w.client)
-	w.hc.SetRecoveryCallback(health.RecoveryCallbackFunc(func(context.Context, *domain.Endpoint) error { w.callbacks++; return nil }))
+	w.hc.SetRecoveryCallback(health.RecoveryCallbackFunc(func(cctx context.Context, _ *domain.Endpoint) error {
+		w.callbacks++
+		// the production callback runs a context-bound model discovery: a context that is already over when the
+		// callback gets to run means the re-discovery the statement promises cannot happen
+		if cctx.Err() != nil {
+			w.deadCallbacks++
+		}
+		return nil
+	}))
 	w.retry = core.NewRetryHandler(&discAdapter{w.repo}, lg)
 	return w, nil
 }
@@ -351,6 +360,9 @@ func observe(w *world, r *ref, e event, checked bool, altStatus, altClause strin
 	}
 	if w.callbacks != r.callbacks {
 		return &mismatch{"recovery-callback-count", fmt.Sprintf("after %s: %d recovery callbacks delivered, owed %d", e, w.callbacks, r.callbacks)}
+	}
+	if w.deadCallbacks > 0 {
+		return &mismatch{"recovery-callback-context-over", fmt.Sprintf("after %s: %d recovery callback(s) were handed a context that was already cancelled when they ran (the periodic loop cancels its per-tick context as soon as the round returns)", e, w.deadCallbacks)}
 	}
 	return nil
 }
